@@ -6,7 +6,7 @@ import (
 	"context"
 	"math"
 	"os"
-	"runtime"
+	"time"
 
 	rt "github.com/blevesearch/bleve/v2/internal/verifrt"
 	segment "github.com/blevesearch/scorch_segment_api/v2"
@@ -22,20 +22,32 @@ import (
 func VerifH_C11_ScorchLifecycle() {
 	dir := verifTempDir()
 	defer os.RemoveAll(dir)
-	s := verifStartDisk(dir, rt.Choice("safe_batch", 2) == 1)
+	safe := rt.Choice("safe_batch", 2) == 1
+	s := verifStartDisk(dir, safe)
 	s.persisterOptions = &persisterOptions{NumPersisterWorkers: 1, MemoryPressurePauseThreshold: math.MaxUint64,
 		PersisterNapUnderNumFiles: rt.Choice("nap_under_num_files", 2), PersisterNapTimeMSec: rt.Choice("nap_msec", 2)}
 	s.forceMergeRequestCh = make(chan *mergerCtrl, 1)
-	s.asyncTasks.Add(3)
+	// the merger may be arbitrarily slow: in one variant it never gets to run at all, so that the
+	// persister's waits for it are exercised deterministically (natively too)
+	// (only with unsafe batches: a safe batch legitimately waits for a persister that waits for the merger)
+	mergerRuns := safe || rt.Choice("merger_runs", 2) == 1
+	s.asyncTasks.Add(2)
 	go s.introducerLoop()
 	go s.persisterLoop()
-	go s.mergerLoop()
+	if mergerRuns {
+		s.asyncTasks.Add(1)
+		go s.mergerLoop()
+	}
 	defer func() { verifMergeHook = nil }()
 	steps := rt.Param("steps", 3)
 	cancelled, mergedAfterCancel := false, false
 	nextID := byte('a')
 	for i := 0; i < steps; i++ {
-		switch rt.Choice("call", 3) {
+		nc := 3
+		if !mergerRuns {
+			nc = 1 // forced merges need the merger
+		}
+		switch rt.Choice("call", nc) {
 		case 0:
 			ids := []byte{nextID}
 			nextID++
@@ -51,14 +63,16 @@ func VerifH_C11_ScorchLifecycle() {
 			verifMergeHook = func() {
 				verifMergeHook = nil
 				cancel()
-				runtime.Gosched() // let the watcher of the context close the merge's cancel channel
-				cancelled = true
+				time.Sleep(5 * time.Millisecond) // let the watcher of the context close the merge's cancel channel
 			}
 			rt.Assert(s.ForceMerge(ctx, nil) == nil, "forced merge with a context that gets cancelled returns")
 			verifMergeHook = nil
 			cancel()
+			cancelled = true
 		}
+		time.Sleep(10 * time.Millisecond) // let the background loops catch up before the next call
 	}
+	time.Sleep(20 * time.Millisecond) // let the background loops reach their waits (symbolically: run until blocked)
 	rt.Assert(s.Close() == nil, "Close returns")
 	rt.Assert(s.rootBolt == nil, "the metadata store is closed")
 	rt.Cover(mergedAfterCancel, "forced-merge-after-a-cancelled-one")
